@@ -59,7 +59,7 @@ package session
 // and no other pair does. Context construction blames nobody.
 //@ pure func pairSponge(id Int, i Int, s []byte) V = advance(absorb(absorb(absorb(cshakeInit(bytes(), strbytes(seedDomainSeparatorLabel)), encAny(binary.LittleEndian, box(ite(id < i, id, i)))), encAny(binary.LittleEndian, box(ite(id < i, i, id)))), s), 32)
 //@ func NewContext
-//@   property C10, C01
+//@   property C10, C01, C07
 //@   ensures forall x V :: !culprit(err, x)
 //@   ensures err == nil ==> result != nil && result.holderID == id
 //@   ensures err == nil ==> forall t int :: 0 <= t && t < len(result.sortedQuorum) && result.sortedQuorum[t] != id ==> has(result.seeds, result.sortedQuorum[t]) && shk(result.seeds[result.sortedQuorum[t]]) == pairSponge(id, result.sortedQuorum[t], pairwiseSeeds[result.sortedQuorum[t]])
@@ -72,7 +72,7 @@ package session
 // (a copy of) the parent's pairwise sponge for j AND the encoding of the sub-quorum: contexts of different
 // sub-quorums therefore get different streams from the same parent seed. The parent's own sponges are not advanced.
 //@ func (*Context).SubContext
-//@   property C10, C01
+//@   property C10, C01, C07
 // (input validity: the sponges stored in the context are existing objects)
 //@   requires forall j sharing.ID :: ctx.seeds[j] == nil || allocated(ctx.seeds[j])
 //@   ensures forall x V :: !culprit(err, x)
